@@ -46,3 +46,4 @@ def run(check: Check, repo: Repo, tier: str) -> None:
     from rules import stream_rules as T
 
     T.error_keeps_items(check, repo)
+    T.drain_guarded(check, repo)
